@@ -8,6 +8,14 @@
   The loop program `lops` (any list of to_HAP / get_value / subscribe / unsubscribe / drain / flush
   operations) and the worker program `wups` (any list of `set_value` calls, valid or rejected) are
   universally quantified as well.
+
+  Map from the property's sentences to the theorems:
+    "the outcome equals that of some serial order"  C20_serial_order (the property's quantifier `AtomicUpd`: the
+        whole update at a step boundary), C20_read_never_none; C20_fine_grained_not_serializable (why not finer)
+    "subsequent reads … show the new value"         C20_no_stale(_window), C20_update_not_lost,
+        C20_later_reads_show_final (every later read, every schedule), C20_subsequent_read
+    "subscribed controllers end up with it …"       C20_event, C20_pending_has_timer, C20_handoff_exact,
+        C20_event_quiescent(_delivered), C20_event_delivered (drain + timer expiry reach quiescence)
 -/
 import Proofs.Race
 namespace Hap.Race
